@@ -1,6 +1,11 @@
 package main
 
 import (
+	"testing/iotest"
+	"io"
+	"bufio"
+	"bytes"
+	"runtime/debug"
 	"time"
 	"sync"
 	crand "crypto/rand"
@@ -134,6 +139,22 @@ var budgetMutated string
 
 // exec runs one operation; the budget check of setCfg is appended to its answer.
 func (e *executor) exec(line, lean string) string {
+	out := e.execOnce(line, lean)
+	if p := perturbationFor(line); p != nil {
+		// the same operation again, in a process whose ENVIRONMENT differs in a way no recipe, list or
+		// random byte mentions: locale variables, working directory, time zone, HOME, debug variables,
+		// the number of processors, the collector's settings. The answer must be the same line.
+		undo := p.apply(e)
+		out2 := e.execOnce(line, lean)
+		undo()
+		if out2 != out {
+			out += " ENV-DEPENDENT(" + p.name + ") answer there: " + out2
+		}
+	}
+	return out
+}
+
+func (e *executor) execOnce(line, lean string) string {
 	budgetMutated = ""
 	opCtx.set, opCtx.zeroBound, lastReaderFailed = false, false, false
 	out := e.exec1(line, lean)
@@ -142,6 +163,95 @@ func (e *executor) exec(line, lean string) string {
 		budgetMutated = ""
 	}
 	return out
+}
+
+type perturbation struct {
+	name  string
+	apply func(e *executor) (undo func())
+}
+
+func envPerturbation(name string, set map[string]string, unset []string) perturbation {
+	return perturbation{name, func(e *executor) func() {
+		old := map[string]*string{}
+		for k := range set {
+			if v, ok := os.LookupEnv(k); ok {
+				v := v
+				old[k] = &v
+			} else {
+				old[k] = nil
+			}
+		}
+		for _, k := range unset {
+			if v, ok := os.LookupEnv(k); ok {
+				v := v
+				old[k] = &v
+			} else {
+				old[k] = nil
+			}
+		}
+		for k, v := range set {
+			os.Setenv(k, v)
+		}
+		for _, k := range unset {
+			os.Unsetenv(k)
+		}
+		return func() {
+			for k, v := range old {
+				if v == nil {
+					os.Unsetenv(k)
+				} else {
+					os.Setenv(k, *v)
+				}
+			}
+		}
+	}}
+}
+
+var perturbations = []perturbation{
+	envPerturbation("LANG=tr_TR.UTF-8 LC_ALL=tr_TR.UTF-8", map[string]string{"LANG": "tr_TR.UTF-8", "LC_ALL": "tr_TR.UTF-8", "LANGUAGE": "tr", "LC_CTYPE": "tr_TR.UTF-8"}, nil),
+	envPerturbation("LANG=C", map[string]string{"LANG": "C", "LC_ALL": "C"}, []string{"LANGUAGE"}),
+	envPerturbation("TZ=Asia/Kathmandu", map[string]string{"TZ": "Asia/Kathmandu"}, nil),
+	envPerturbation("HOME and USER unset, DEBUG=1 SPG_DEBUG=1 VERBOSE=1", map[string]string{"DEBUG": "1", "SPG_DEBUG": "1", "VERBOSE": "1", "SPG_SEED": "1", "CI": "true"}, []string{"HOME", "USER"}),
+	{"working directory /", func(e *executor) func() {
+		wd, err := os.Getwd()
+		os.Chdir("/")
+		return func() {
+			if err == nil {
+				os.Chdir(wd)
+			}
+		}
+	}},
+	{"GOMAXPROCS=1", func(e *executor) func() {
+		old := runtime.GOMAXPROCS(1)
+		return func() { runtime.GOMAXPROCS(old) }
+	}},
+	{"collector at 1 percent, a collection just before", func(e *executor) func() {
+		old := debug.SetGCPercent(1)
+		runtime.GC()
+		return func() { debug.SetGCPercent(old) }
+	}},
+}
+
+// perturbationFor: one operation in six is repeated under one of the perturbations (chosen by the
+// operation's text, so that a finding replays). Operations on long-lived objects, black-box runs of
+// the binary and the slow-source operations are not repeated.
+func perturbationFor(line string) *perturbation {
+	if len(line) > 20000 || strings.Contains(line, "obj=") || strings.Contains(line, " slow=") || strings.Contains(line, "@agile") {
+		return nil
+	}
+	switch strings.SplitN(line, " ", 2)[0] {
+	case "chargen", "charinfo", "wlgen", "wlent", "wlnew", "mkidx", "tokenize", "draw", "newcr", "newwl":
+	default:
+		return nil
+	}
+	h := uint64(1469598103934665603)
+	for i := 0; i < len(line); i++ {
+		h = (h ^ uint64(line[i])) * 1099511628211
+	}
+	if h%6 != 0 {
+		return nil
+	}
+	return &perturbations[(h/6)%uint64(len(perturbations))]
 }
 
 var entropyWarnRE = regexp.MustCompile(`^entropySimple: There must be a positive number of elements\. Not -?\d+$`)
@@ -450,6 +560,72 @@ func tokenizeConcurrently(pw string, idx spg.Indices, ent float32) string {
 		}
 		return ""
 	})
+}
+
+// sourceTypeDependence: the same bytes offered through readers of other dynamic types — a
+// bytes.Reader, a strings.Reader, a bufio.Reader (all three also implement io.ByteReader,
+// io.WriterTo, io.Seeker …), a one-byte-at-a-time reader, a reader hidden behind a plain struct.
+// What crypto/rand.Reader IS beyond being an io.Reader is not an input of any recipe: the outcome
+// (password, error or the fail-closed panic) must be the same for each of them.
+func sourceTypeDependence(tape []byte, gen func() (string, bool), want string, wantPanic bool) string {
+	type plain struct{ io.Reader }
+	mk := []struct {
+		name string
+		r    func() io.Reader
+	}{
+		{"*bytes.Reader", func() io.Reader { return bytes.NewReader(tape) }},
+		{"*strings.Reader", func() io.Reader { return strings.NewReader(string(tape)) }},
+		{"*bufio.Reader", func() io.Reader { return bufio.NewReaderSize(bytes.NewReader(tape), 16) }},
+		{"iotest.OneByteReader", func() io.Reader { return iotest.OneByteReader(bytes.NewReader(tape)) }},
+		{"struct{io.Reader}", func() io.Reader { return plain{bytes.NewReader(tape)} }},
+	}
+	for _, m := range mk {
+		got, panicked := func() (out string, panicked bool) {
+			old := crand.Reader
+			crand.Reader = m.r()
+			defer func() {
+				crand.Reader = old
+				if r := recover(); r != nil {
+					panicked = true
+				}
+			}()
+			out, _ = gen()
+			return
+		}()
+		capt.take()
+		if panicked != wantPanic || (!panicked && got != want) {
+			return fmt.Sprintf(" SOURCE-TYPE-DEPENDENT(random source of type %s: %s; scripted io.Reader: %s)", m.name, describeOutcome(got, panicked), describeOutcome(want, wantPanic))
+		}
+	}
+	return ""
+}
+
+func describeOutcome(s string, panicked bool) string {
+	if panicked {
+		return "panic"
+	}
+	return "result " + encHex([]byte(s))
+}
+
+// keptResultSurvives: the caller keeps what it took out of the result — the Tokens() slice, a copy
+// of the Password value — and lets go of the pointer. Whatever the collector then does with the
+// unreachable *Password (a finalizer, a pool), what the caller kept is the caller's.
+func keptResultSurvives(pp **spg.Password) string {
+	if *pp == nil {
+		return ""
+	}
+	toks := (*pp).Tokens()
+	pv := **pp
+	before, beforeS := showTokens(toks), pv.String()
+	*pp = nil
+	runtime.GC()
+	time.Sleep(2 * time.Millisecond)
+	runtime.GC()
+	time.Sleep(time.Millisecond)
+	if showTokens(toks) != before || pv.String() != beforeS || showTokens(pv.Tokens()) != before {
+		return " RESULT-CHANGED-LATER(the Tokens() slice and the Password value the caller kept changed after the *Password became unreachable and a collection ran: now " + showTokens(toks) + ")"
+	}
+	return ""
 }
 
 // panicLine classifies a panic of the library. The two panics the library documents are
@@ -1099,7 +1275,26 @@ func (e *executor) exec1(line, lean string) string {
 				oracle += fmt.Sprintf(" TIMING-DEPENDENT(slow=%s: err=%v used=%d; prompt source: err=%v used=%d)", a["slow"], err2, ro2.used, err, ro.used)
 			}
 		}
-		return genLine("chargen", lean, p, err, ro, warn, unk, 3, secretsOf(p, nil)) + oracle + after()
+		if _, chunked := a["chunk"]; !chunked && a["extra"] == "" && a["resume"] == "" && a["reenter"] == "" && len(a["tape"]) < 600 {
+			want := ""
+			if p != nil && err == nil {
+				want = p.String()
+			} else if err != nil {
+				want = "error"
+			}
+			oracle += sourceTypeDependence(wordsToBytes(decWords(a["tape"])), func() (string, bool) {
+				p2, err2 := r.Generate()
+				if err2 != nil || p2 == nil {
+					return "error", true
+				}
+				return p2.String(), true
+			}, want, ro.panicked)
+		}
+		res := genLine("chargen", lean, p, err, ro, warn, unk, 3, secretsOf(p, nil)) + oracle + after()
+		if a["obj"] == "" && len(line)%5 == 0 {
+			res += keptResultSurvives(&p)
+		}
+		return res
 
 	case "newcr":
 		// what NewCharRecipe hands out, and then the caller customises its recipe as the
@@ -1224,11 +1419,13 @@ func (e *executor) exec1(line, lean string) string {
 			_ = id
 		}
 		r = spg.NewWLRecipe(a.int("L"), wl)
+		copied := false
 		if len(a["tape"])%2 == 1 {
 			// the caller copies the recipe it was handed (a template, a snapshot) and configures the copy
 			c := *r
 			r.SeparatorChar, r.Capitalize, r.Length = "ORIGINAL-NOT-THE-COPY", spg.CSAll, 1
 			r = &c
+			copied = true
 		}
 		if id, ok := a["sepobj"]; ok && (strings.HasPrefix(a["sep"], "recipe:") || strings.HasPrefix(a["sep"], "preset:")) {
 			// one separator function shared by many calls and recipes, as a caller would keep it
@@ -1354,6 +1551,21 @@ func (e *executor) exec1(line, lean string) string {
 				so += " REENTRANCY-DEPENDENT"
 			}
 		}
+		if _, chunked := a["chunk"]; !chunked && a["extra"] == "" && a["resume"] == "" && a["reenter"] == "" && len(a["tape"]) < 600 && !strings.HasPrefix(a["sep"], "custom:") && a["sepobj"] == "" {
+			want := ""
+			if p != nil && err == nil {
+				want = showTokens(p.Tokens())
+			} else if err != nil {
+				want = "error"
+			}
+			so += sourceTypeDependence(wordsToBytes(decWords(a["tape"])), func() (string, bool) {
+				p2, err2 := r.Generate()
+				if err2 != nil || p2 == nil {
+					return "error", true
+				}
+				return showTokens(p2.Tokens()), true
+			}, want, ro.panicked)
+		}
 		if a["slow"] != "" && !ro.panicked {
 			var p2 *spg.Password
 			var err2 error
@@ -1378,7 +1590,27 @@ func (e *executor) exec1(line, lean string) string {
 			so += statCaps(r, readBack(wl), a.int("L"), decCps(a["cap"]), a["words"]+a["cap"]+a["L"])
 			capt.take()
 		}
-		return genLine("wlgen", lean, p, err, ro, warn, unk, 8, secretsOf(p, listWords)) + so + mut + after()
+		if copied && !ro.panicked && a["obj"] == "" && a["wlobj"] == "" && a["sepobj"] == "" && !strings.HasPrefix(a["sep"], "custom:") {
+			// the same configuration on a recipe built directly (no copy): same bytes, same password
+			d := spg.NewWLRecipe(a.int("L"), wl)
+			applySep(d, a["sep"])
+			if v, ok := a["sepchar"]; ok && d.SeparatorFunc != nil {
+				d.SeparatorChar = decCps(v)
+			}
+			d.Capitalize = spg.CapScheme(decCps(a["cap"]))
+			var p2 *spg.Password
+			var err2 error
+			ro2 := withReader(readerFor(a), func() { p2, err2 = d.Generate() })
+			capt.take()
+			if ro2.panicked || (err2 == nil) != (err == nil) || (p != nil && p2 != nil && showTokens(p2.Tokens()) != showTokens(p.Tokens())) {
+				so += " COPY-DEPENDENT(a configured COPY of what NewWLRecipe returned and a recipe configured directly give different results on the same bytes)"
+			}
+		}
+		res := genLine("wlgen", lean, p, err, ro, warn, unk, 8, secretsOf(p, listWords)) + so + mut + after()
+		if a["obj"] == "" && a["wlobj"] == "" && len(line)%5 == 0 {
+			res += keptResultSurvives(&p)
+		}
+		return res
 
 	case "explode":
 		pw := string(decHex(a["pw"]))
@@ -1468,6 +1700,9 @@ func (e *executor) exec1(line, lean string) string {
 				rt = " ROUNDTRIP-FAIL=error"
 			} else if !reflect.DeepEqual(q.Tokens(), ts) || math.Float32bits(q.Entropy) != math.Float32bits(ent) {
 				rt = " ROUNDTRIP-FAIL=differs"
+			} else if q.String() != pw {
+				// String() is the concatenation of the token values in order, whatever the order of types
+				rt = " STRING-FAIL(String() of the decoded password is " + encHex([]byte(q.String())) + ")"
 			}
 			// only sequences whose every token has 1..255 characters are promised to round-trip
 			for _, v := range vals {
@@ -1515,11 +1750,21 @@ func (e *executor) exec1(line, lean string) string {
 				}
 			}
 		}
+		// the index is a PREFIX of a longer buffer of the caller's (indices packed back to back in a
+		// record, a reused buffer): what lies behind it is not the library's to write
+		idxCopy := append(spg.Indices{}, idx...)
+		record := append(append(spg.Indices{}, idx...), bytes.Repeat([]byte{0xEE}, 300)...)
+		idx = record[:len(idxCopy)]
 		ro := withReader(&scripted{}, func() { q, err = spg.Tokenize(pw, idx, ent) })
 		_, _, unk := classifyOutput(capt.take())
 		if ro.panicked {
 			branch("tokenize:panic")
 			return "panic other:" + encHex([]byte(ro.panicMsg))
+		}
+		for i, b := range record {
+			if (i < len(idxCopy) && b != idxCopy[i]) || (i >= len(idxCopy) && b != 0xEE) {
+				return fmt.Sprintf("MUTATED=caller-index(byte %d of the caller's buffer, of which the index is the first %d bytes, was overwritten with %d)", i, len(idxCopy), b) + unknownField(unk)
+			}
 		}
 		if err != nil {
 			branch("tokenize:err")
@@ -1538,6 +1783,9 @@ func (e *executor) exec1(line, lean string) string {
 		}
 		if !strings.HasPrefix(pw, cat) {
 			l += " PREFIX-FAIL"
+		}
+		if q.String() != cat {
+			l += " STRING-FAIL(String() is not the concatenation of the tokens)"
 		}
 		// each token has exactly the character count the index specifies (C12)
 		if len(idx) > 0 {
